@@ -896,6 +896,107 @@ def gen_rdflib_driver_cases(ctx, n: int) -> tuple[list[str], dict]:
     return cases, stats
 
 
+def pobj_lit(x) -> str:
+    """An object the rdflib reader yields, as a value of the translated unit's type (RdflibParseGen.obj)."""
+    from pyjelly.integrations.rdflib import parse as rp
+
+    if isinstance(x, rp.Quad):
+        return "(@O_Quad SN " + " ".join(robj_lit(t) for t in x) + ")"
+    if isinstance(x, rp.Triple):
+        return "(@O_Triple SN " + " ".join(robj_lit(t) for t in x) + ")"
+    if isinstance(x, rp.Prefix):
+        return f"(@O_Prefix SN {nlist(x.prefix)} {robj_lit(x.iri)})"
+    return robj_lit(x)
+
+
+def run_rimpl(frames) -> tuple[list, str | None]:
+    """The real rdflib reader on the frames: options_from_frame on the first one, then parse_jelly_flat(frames=.., options=..)."""
+    import logging
+    import warnings
+
+    from pyjelly.integrations.rdflib import parse as rp
+    from pyjelly.parse.decode import options_from_frame
+
+    ys: list = []
+    try:
+        opts = options_from_frame(frames[0], delimited=True)
+    except Exception as e:  # noqa: BLE001
+        return [], type(e).__name__
+    logging.disable(logging.CRITICAL)
+    try:
+        with warnings.catch_warnings():
+            warnings.simplefilter("ignore")
+            for y in rp.parse_jelly_flat(None, frames=list(frames), options=opts):
+                ys.append(y)
+    except Exception as e:  # noqa: BLE001
+        return ys, type(e).__name__
+    finally:
+        logging.disable(logging.NOTSET)
+    return ys, None
+
+
+BAD_TAGS = ["en_US", "-", "e n", "1x", "en-", "\u00e9", "en\n"]
+
+
+def gen_rdflib_reader_cases(ctx, n: int) -> tuple[list[str], dict]:
+    """n cases `txp_reader [frames] = [results]`: RDF 1.1 streams of the reference encoder (some with xsd:token / xsd:normalizedString
+    literals whose form the whiteSpace facet rewrites), as they are, with one mutation, or with one language tag made ill-formed
+    (rdflib's constructor raises ValueError; once in a while the one form Python's `$` lets through: a final newline)."""
+    import fam_parse
+
+    rng = ctx.rng
+    cases: list[str] = []
+    stats = {"valid": 0, "mutated": 0, "bad_tag": 0, "facet_rewritten": 0, "exceptions": {}, "yields": 0, "skipped": 0}
+    tries = 0
+    while stats["valid"] + stats["mutated"] + stats["bad_tag"] < n and tries < 6 * n:
+        tries += 1
+        rs = fam_parse.ref_stream(ctx, rdf11=True, facet_p=0.3)
+        if rs is None:
+            continue
+        frames = rs["frames"]
+        if not frames or not any(len(f.rows) for f in frames):
+            continue
+        k = rng.random()
+        kind = "valid"
+        if k < 0.35:
+            mutate(rng, frames)
+            kind = "mutated"
+        elif k < 0.55:
+            lits = [getattr(st, fld) for f in frames for row in f.rows for st in [getattr(row, row.WhichOneof("row"))] if row.WhichOneof("row") in ("triple", "quad")
+                    for fld in ["o_literal"] if st.WhichOneof("object") == "o_literal" and getattr(st, fld).langtag]
+            if lits:
+                rng.choice(lits).langtag = rng.choice(BAD_TAGS)
+                kind = "bad_tag"
+        res = run_rimpl(frames)
+        try:
+            fms = "[" + "; ".join(pb_lit(f) for f in frames) + "]"
+            ys, exc = res
+            if exc is not None and exc not in EXNS:
+                raise ValueError(exc)
+            ylit = "[" + "; ".join("None" if y is None else f"Some {pobj_lit(y)}" for y in ys) + "]"
+            rhs = f"({ylit}, {'None' if exc is None else 'Some ' + exc})"
+            stats["yields"] += len(ys)
+            if exc:
+                stats["exceptions"][exc] = stats["exceptions"].get(exc, 0) + 1
+        except ValueError:
+            stats["skipped"] += 1
+            continue
+        if kind == "valid" and exc is None:
+            sent = [fam_parse.facet_rewritten(e) != e for e in rs["events"]]
+            stats["facet_rewritten"] += sum(sent)
+        stats[kind] += 1
+        cases.append(f"txp_reader {fms} = {rhs}")
+    return cases, stats
+
+
+def coq_file_rdflib_reader(cases: list[str]) -> str:
+    body = ["From PJ.Model Require Import Base.", "From PJ.Tie Require Import PyPrims StrN TxRunRdflibParse.", "From PJ.Gen Require Import RdflibParseGen.",
+            "Local Open Scope Z_scope."]
+    for i, c in enumerate(cases):
+        body.append(f"Example txp{i} : {c}.\nProof. vm_compute. reflexivity. Qed.")
+    return "\n".join(body) + "\n"
+
+
 def coq_file_rdflib(cases: list[str]) -> str:
     body = ["From PJ.Model Require Import Base.", "From PJ.Tie Require Import PyPrims StrN TxRun TxRunRdflib.", "From PJ.Gen Require Import RdflibSerializeGen.",
             "Local Open Scope Z_scope."]
